@@ -14,6 +14,8 @@ type TreeCase struct {
 	Tree    *Node    `json:"tree"`
 	Expr    string   `json:"expr"`
 	Allowed []string `json:"allowed"`
+	// AllowedTerms: the allowed entries as generated terms (same order as Allowed), when known
+	AllowedTerms []Term `json:"allowed_terms,omitempty"`
 }
 
 func (c TreeCase) terms() []string { return Texts(c.Pool) }
@@ -56,6 +58,29 @@ func checkC01(c TreeCase) Outcome {
 	}
 	want := c.Tree.Eval(func(l int) bool { return truth[l] })
 	got := Satisfies(c.Expr, c.Allowed)
+	// second, fully independent oracle (when the case carries the allowed entries as terms and no id
+	// with an ambiguous table position is involved): reference matcher + Boolean evaluation
+	if len(c.AllowedTerms) == len(c.Allowed) && !got.IsErr && got.Panic == "" {
+		tb := Tbl()
+		ambiguous := false
+		for _, t := range append(append([]Term{}, c.Pool...), c.AllowedTerms...) {
+			ambiguous = ambiguous || (t.Kind == "lic" && tb.MultiPosition(t.ID))
+		}
+		if !ambiguous {
+			ref := c.Tree.Eval(func(l int) bool {
+				for _, a := range c.AllowedTerms {
+					if tb.Match(c.Pool[l], a) {
+						return true
+					}
+				}
+				return false
+			})
+			if got.OK != ref {
+				return fail(fmt.Sprintf("C01/reference/%s | %s", c.Expr, strings.Join(c.Allowed, ",")),
+					"Satisfies(%q, %q) = %v, the reference model (documented matching rules + Boolean evaluation of the generated tree) gives %v", c.Expr, c.Allowed, got.OK, ref)
+			}
+		}
+	}
 	key := fmt.Sprintf("C01/verdict/%s | %s", c.Expr, strings.Join(c.Allowed, ","))
 	if got.Panic != "" {
 		return fail("C01/panic/"+c.Expr, "Satisfies(%q, %q) panicked: %s", c.Expr, c.Allowed, got.Panic)
@@ -90,7 +115,8 @@ func drawTreeCase(rt *rapid.T, maxAllowed int) TreeCase {
 	sp := DrawSpacer(rt)
 	c := TreeCase{Pool: pool, Tree: tree}
 	c.Expr = tree.Render(c.terms(), sp)
-	c.Allowed = Texts(tb.DrawAllowed(rt, pool, excPool, maxAllowed))
+	c.AllowedTerms = tb.DrawAllowed(rt, pool, excPool, maxAllowed)
+	c.Allowed = Texts(c.AllowedTerms)
 	return c
 }
 
